@@ -1,12 +1,14 @@
 /- Line-protocol driver for the `net` engine (C16).  See harness/eng_net.py for the op grammar. -/
 import TmVerif.Base.Proto
 import TmVerif.Net.Model
+import TmVerif.Net.Watcher
 open TmVerif TmVerif.Proto TmVerif.Net
 
 structure DSt where
   sys   : Sys
   bound : Bound
   names : List (Nat × String)     -- intern table (id ↦ string) for rendering only
+  watcher : Fw.W := {}            -- the firewall watcher (sproc.firewall._watcher)
 
 def DSt.init : DSt := { sys := { host := Host.empty, live := [] }, bound := ⟨[], []⟩, names := [] }
 
@@ -165,6 +167,12 @@ def showBound (b : Bound) : String :=
 def poolOkB (prod : Bool) (tried : List Nat) : Bool :=
   tried.all (inPool prod) && tried.eraseDups.length = tried.length
 
+def showW (w : Fw.W) : String :=
+  let ips := (w.refs.toArray.qsort (· < ·)).toList.eraseDups
+  let cnt := showCsv (ips.map (fun ip => s!"{ip}:{w.refs.count ip}"))
+  let set := showCsv (((w.set.toArray.qsort (· < ·)).toList).map toString)
+  s!"cnt={cnt} set={set}"
+
 def stepLine (d : DSt) (ws : List String) : DSt × String :=
   match ws with
   | ["name", n, s] =>
@@ -259,6 +267,23 @@ def stepLine (d : DSt) (ws : List String) : DSt × String :=
       let b : Bound := ⟨d.bound.tcp.filter (fun p => !t.contains p), d.bound.udp.filter (fun p => !u.contains p)⟩
       ({ d with bound := b }, showBound b)
     | _, _ => (d, "bad-op")
+  -- the firewall watcher: `wprime ip,ip,…` (one entry per passthrough rule file found at (re)start),
+  -- `wcreated ip`, `wdeleted ip`; answer: the count dictionary and the IP set, or KeyError
+  | ["wprime", files] =>
+    match natList? files with
+    | some l => let w := Fw.prime l; ({ d with watcher := w }, showW w)
+    | none => (d, "bad-op")
+  | ["wcreated", ip] =>
+    match ip.toNat? with
+    | some ip => let w := Fw.onCreated d.watcher ip; ({ d with watcher := w }, showW w)
+    | none => (d, "bad-op")
+  | ["wdeleted", ip] =>
+    match ip.toNat? with
+    | some ip =>
+      match Fw.onDeleted d.watcher ip with
+      | some w => ({ d with watcher := w }, showW w)
+      | none => (d, "KeyError")
+    | none => (d, "bad-op")
   | _ => (d, "bad-op")
 
 def main : IO Unit := run stepLine DSt.init
